@@ -3,11 +3,12 @@
 /tmp/seedout/<Cnn>/<a|b>[_rebased]/ and the verification log lines of tools/verify_seed.sh."""
 import os, re, json, shutil, sys
 V = os.path.dirname(os.path.dirname(os.path.abspath(__file__)))
-SRC = "/tmp/seedout"
+SRC = os.environ.get("SEED_SRC", "/tmp/seedout")
+MAP = dict(x.split("=") for x in os.environ.get("SEED_MAP", "a=a,b=b").split(","))  # round 2: a=c,b=d
 logs = {}
 for f in sys.argv[1:]:
     for l in open(f):
-        m = re.match(r"/tmp/seedout/(C\d\d)/([ab])(_rebased)? \| base: (.*?) \| with patch: (.*?) \| suite: (.*)$", l.strip())
+        m = re.match(re.escape(SRC) + r"/(C\d\d)/([ab])(_rebased)? \| base: (.*?) \| with patch: (.*?) \| suite: (.*)$", l.strip())
         if m:
             logs[(m.group(1), m.group(2), bool(m.group(3)))] = (m.group(4).strip(), m.group(5).strip(), m.group(6).strip())
 
@@ -31,7 +32,7 @@ for (prop, ab, reb), (base, withp, suite) in sorted(logs.items()):
         status = "verified"
     else:
         status = "neutralised"
-    sid = "%s%s" % (prop, ab)
+    sid = "%s%s" % (prop, MAP[ab])
     out = os.path.join(V, "seeded", sid)
     os.makedirs(out, exist_ok=True)
     shutil.copy(os.path.join(d, "patch.diff"), os.path.join(out, "patch.diff"))
